@@ -48,6 +48,9 @@ def run(chk, tier):
         # what the builders produced is what the registry stores (docs given through the always-setters included)
         from . import c02
         c02.check_config(chk, prog, cfg)
+        # "exactly the path supplied": the constructors the derive hands its path through (new_with_replace: first matching pair per segment)
+        from . import c18
+        c18.constructors(chk, prog, cfg)
     # "PhantomData members are erased" is the library's job, by type identity: the derive hands every non-skipped member to the builders (a member whose
     # type merely has that name is a member) -- decided on the declaration corpus
     from . import c09
